@@ -2,7 +2,7 @@
    semantics" is a THEOREM, so that every check can report, per program it ran, whether the
    agreement it observed was proved or only sampled. *)
 From GV Require Import Base.Util Lang.Ast Lang.Wt Compile.Lower Compile.TSem Panic.PanicRec Panic.PanicSem
-  Compile.TSemFacts Compile.TSemSemExpr Compile.TSemSemStmt.
+  Compile.TSemFacts Compile.TSemSemExpr Compile.TSemSemStmt Compile.TSemSemCall.
 From GV Require Lang.Sem.
 
 (* main has scalar parameters, no global constants, and its body is in the imperative scalar
@@ -37,3 +37,23 @@ Proof.
   intro Hrun. eapply tsem_sem_program; eauto.
 Qed.
 Print Assumptions in_imp_fragment_sound.
+
+(* the larger fragment of Compile/TSemSemCall.v (calls between functions of the fragment, `for`
+   over ranges), or the one above (which allows unused functions outside the fragment) *)
+Definition in_proved_fragment (fw : nat) (P : program) : bool :=
+  in_imp_fragment fw P || in_imp_fragment2 fw P.
+
+Theorem in_proved_fragment_sound P fuel fw fT args o outs :
+  in_proved_fragment fw P = true ->
+  tsem_program fT P args = Ok (o, outs) ->
+  match Sem.run_main fuel P args with
+  | Sem.RunOk bits _ => o = None /\ outs = bits
+  | Sem.RunPanic r m => o = Some (preason_num (pr r), ploc32 (ploc_of m))
+  | Sem.RunStuck _ | Sem.RunNoFuel => True
+  end.
+Proof.
+  unfold in_proved_fragment. intro H. apply orb_true_iff in H as [H|H].
+  - now apply in_imp_fragment_sound with (fw := fw).
+  - now apply in_imp_fragment2_sound with (fw := fw).
+Qed.
+Print Assumptions in_proved_fragment_sound.
